@@ -76,6 +76,17 @@ def run(ctx, scripts, cache):
         v = e
     ctx.ran()
     ctx.trans(len(scripts))
+    if len(cache) > 1:
+        # the cache is a mapping: the same entries inserted in the opposite order give the same verdict
+        try:
+            v2 = F.run_auth_scripts(list(scripts), dict(reversed(list(cache.items()))))
+        except BaseException as e:
+            v2 = e
+        ctx.ran()
+        ctx.trans(len(scripts))
+        if (v2 if type(v2) is bool else type(v2)) != (v if type(v) is bool else type(v)):
+            ctx.violation({'clause': 'verdict independent of the order of the cache entries', 'kind': 'accepts' if v2 is True else 'rejects'},
+                          f'{len(scripts)} scripts, fields {sorted(k for k in cache if type(k) is str)}: {v!r} / reversed {v2!r}')
     return v
 
 
